@@ -139,10 +139,12 @@ SPEC = {
           ("AppProof", "C14_clean", "C14_clean", "whatever happened: no socket, transport released, loop stopped, torn down"),
           ("AppGen", "close_args_gen", "C14_close_args_are_the_code", "CODE TIE: the arguments of on_close are the decisions and values regenerated from WebSocketApp._get_close_args (the reason as raw bytes; CPython's decode(errors='replace') of them is outside the model)")]),
  "C15": dict(title="C15 — automatic reconnection restores service after loss and stops on request.",
-   imports="Base.Res Base.Bytes Spec.Frame Spec.Legal Spec.AppTrace Gen.GenAbnf Model.Recv Model.Conn Model.App Proofs.RecvSpec Proofs.ConnSpec Proofs.ConnProof Proofs.AppProof Gen.GenApp Proofs.AppGen",
+   imports="Base.Res Base.Bytes Spec.Frame Spec.Legal Spec.AppTrace Gen.GenAbnf Model.Recv Model.Conn Model.App Proofs.RecvSpec Proofs.ConnSpec Proofs.ConnProof Proofs.AppProof Gen.GenApp Proofs.AppGen Proofs.AppGuard",
    items=[("AppProof", "C15_retry", "C15_retry", "every abnormal loss is followed by a new attempt until one succeeds; no on_close in between"),
           ("AppProof", "C15_resume", "C15_resume", "success fires on_reconnect (on_open if none was given)"),
           ("AppProof", "C15_stop", "C15_stop", "once the run has ended no further attempt is made"),
+          ("AppGuard", "run_forever_g_eq", "C15_guarded_run_is_the_run", "the run with setSock's regenerated refusal (reconnecting after close()) in front of every attempt is the run the other theorems are about: in sequential histories the refusal is never reached"),
+          ("AppGuard", "set_sock_g_refuses", "C15_no_attempt_after_close", "asked to reconnect once keep_running is cleared, setSock does nothing: no connection attempt, no callback"),
           ("AppGen", "reconnect_guard_gen", "C15_reconnect_guard_is_the_code", "CODE TIE: the outer loop asks for a reconnection exactly when setSock's regenerated first test (reconnecting and not keep_running: return) would not refuse it"),
           ("AppProof", "C15_stop_server_close", "C15_stop_server_close", None),
           ("AppProof", "C15_stop_own_close", "C15_stop_own_close", None),
